@@ -81,9 +81,10 @@ def _oracle(args):
     n = sum(1 for _ in xml.iter()) - 25
     # attributes written in the markup that the schema does not allow, or of the wrong type, are outside the property;
     # the by attribute that bluebell derives itself is not
-    # (nor is any other attribute the text does not write: eId, name, href ... are bluebell's own when the text never names them)
+    # (nor are the attributes bluebell computes itself - eId, name, status, placement - when the text never names them; the values of
+    # href, src, alt, marker, refersTo, title come from the markup - a link target that is no URI is the author's)
     errs = [e for e in errs if not e[2].startswith('attr:') or (e[2] == 'attr:by' and '{by' not in text and 'by ' not in text)
-            or (e[2] != 'attr:by' and e[2][5:] not in text)]
+            or (e[2][5:] in ('eId', 'name', 'status', 'placement') and e[2][5:] not in text)]
     if not errs:
         return ('ok', None, n)
     return ('bad', errs, n)
